@@ -27,15 +27,15 @@ type Mutant struct {
 }
 
 type MutantResult struct {
-	Property string   `json:"property"`
-	Total    int      `json:"catalogue"`
-	Applied  int      `json:"applied"`
-	Detected int      `json:"detected"`
-	Skipped  int      `json:"skipped"`
-	Missed   int      `json:"missed"`
-	Benign   int      `json:"benign_edits"`        // behaviour-preserving variants tried
-	FalseAlarms int   `json:"false_alarms_on_benign"`
-	Details  []string `json:"details"`
+	Property    string   `json:"property"`
+	Total       int      `json:"catalogue"`
+	Applied     int      `json:"applied"`
+	Detected    int      `json:"detected"`
+	Skipped     int      `json:"skipped"`
+	Missed      int      `json:"missed"`
+	Benign      int      `json:"benign_edits"` // behaviour-preserving variants tried
+	FalseAlarms int      `json:"false_alarms_on_benign"`
+	Details     []string `json:"details"`
 }
 
 func loadMutants(verifDir string) ([]Mutant, error) {
